@@ -26,13 +26,15 @@ def main():
 Rounds of twenty sub-agents (one per property and round), each given only the property text and its own scratch git worktree of /repo.
 Round 1 `*-ext-*`; round 2 `*-ext2-*` (given one-line summaries of the earlier mutants of the same property and asked for different
 mechanisms); round 3 `*-ext3-*` (asked for cooperating sites / multi-step sequences); round 4 `*-ext4-*` (new features, performance
-refactorings, one-token slips in indirect helpers).
+refactorings, one-token slips in indirect helpers); round 5 `*-ext5-*` (outside the anchor files, edges of the quantifier, over-reaching
+robustness changes); round 6 `*-ext6-*` (wrong member of a family, follow-ups to the repaired code, state that outlives a call or an
+iteration).  Mutants that stopped breaking their property when a `fix:` commit made the property robust against them are kept, with the
+reason, in `../seeded_retired/` and are not counted here.
 
 Each directory holds `patch.diff`, `demo.rs` (an integration test that fails with the change and passes without) and `meta.json` (what it
 breaks, what it needs to manifest, what was run to confirm it, and which rule instances report it). All were confirmed by us in a scratch
 worktree (`tools/eval_mutant.py`): the 236-test suite still passes with the change, the demo fails with it and passes without it.
-Patches of rounds 1-3 were written against the tree before repair `ac1062d` and apply with `git apply --3way` where that repair touched
-their context.
+Patches that touched code changed by a later repair were ported to the repaired tree and re-confirmed (`tools/revalidate_seeded.py`).
 
 **%d mutants, %d reported by the property's own check on the current engine.**
 
